@@ -58,7 +58,7 @@ func H_C06_distinct_str() {
 
 // H_C06_union: A UNION [ALL] B [UNION [ALL] C] [LIMIT n].
 func H_C06_union() {
-	form := verif.Choose("form", 5)
+	form := verif.Choose("form", 8)
 	na := verif.Choose("a", 3)
 	nb := verif.Choose("b", 3)
 	mk := func(n int, col string) ([]Map, []any) {
@@ -89,6 +89,12 @@ func H_C06_union() {
 		sql = verif.SQL("SELECT v FROM a UNION ALL SELECT v FROM b LIMIT ?", lim)
 	case 4:
 		sql = "SELECT v FROM a UNION SELECT v FROM b UNION ALL SELECT v FROM c"
+	case 5:
+		sql = verif.SQL("(SELECT v FROM a UNION SELECT v FROM b LIMIT ?) UNION SELECT v FROM c", lim)
+	case 6:
+		sql = verif.SQL("(SELECT v FROM a UNION ALL SELECT v FROM b LIMIT ?) UNION ALL SELECT v FROM c", lim)
+	case 7:
+		sql = verif.SQL("SELECT v FROM c UNION (SELECT v FROM a UNION SELECT v FROM b LIMIT ?)", lim)
 	}
 	got, ok := runQuery(doc, sql)
 	if !ok {
@@ -111,6 +117,25 @@ func H_C06_union() {
 		}
 	case 4:
 		want = append(refDistinct(cat), c...)
+	case 5, 6, 7:
+		inner := cat
+		if form != 6 {
+			inner = refDistinct(cat)
+		}
+		var cut []any
+		for i, r := range inner {
+			if i < lim {
+				cut = append(cut, r)
+			}
+		}
+		switch form {
+		case 5:
+			want = refDistinct(append(cut, c...))
+		case 6:
+			want = append(cut, c...)
+		case 7:
+			want = refDistinct(append(append([]any(nil), c...), cut...))
+		}
 	}
 	verif.Assert(verif.Eq(got, want), "union")
 	verif.Reach("end")
